@@ -20,7 +20,7 @@ from .values import (SStr, SBytes, SByteArray, SInt, SymDict, SymSet, EagerGen, 
 from . import rx as RX
 from . import models as M
 
-MAX_DEPTH = 120          # interpreted call depth modelled as RecursionError
+MAX_DEPTH = 48           # interpreted call depth modelled as RecursionError (no legitimate chain is that deep)
 BRK = ("break",)
 CNT = ("continue",)
 
